@@ -52,7 +52,14 @@ def hostR (c : Cfg) : Host := let (l, w, b) := placeR c.pl; { lan := l, wan := w
 def hostP (c : Cfg) : Host := let (l, w, b) := placeP c.pl; { lan := l, wan := w, box := b, typ := c.tP }
 def hostI : Host := { lan := addrI, wan := addrI, box := 0, typ := .none }
 
-def world0 (c : Cfg) : World := ((({} : World).addHost hostI).addHost (hostR c)).addHost (hostP c)
+/-- Node ages (Lamport clocks): the introducer has sent more than 2^32 messages, the requester more than 2^16, the
+    introduced peer's first request claims global time 65535 and its second 65536 — identifiers wrap around. -/
+def clockI : Nat := 4294967303
+def clockR : Nat := 70000
+def clockP : Nat := 65534
+
+def world0 (c : Cfg) : World :=
+  ((({} : World).addHost hostI clockI).addHost (hostR c) clockR).addHost (hostP c) clockP
 
 def setPref (w : World) (i : Nat) (pref : List Nat) : World :=
   match w.nodes[i]? with
@@ -62,13 +69,16 @@ def setPref (w : World) (i : Nat) (pref : List Nat) : World :=
 /-- history up to (not including) the scripted introduction.
     old style: P walked to I.   new style: R walked to I first (nothing to introduce yet), P walked to I and asked again
     (second contact is new-style), so that every later message of the script is new-style. -/
-def prehistory (c : Cfg) : World :=
-  let w := setPref (world0 c) 0 [2]
-  if c.newStyle then (((w.walk 1 addrI).walk 2 addrI).ask 2 0) else w.walk 2 addrI
+def prehistoryOn (c : Cfg) (s : Nat) (w : World) : World :=
+  if c.newStyle then (((w.walk 1 addrI s).walk 2 addrI s).ask 2 0 s) else w.walk 2 addrI s
 
-/-- R's request to I: response + puncture request + puncture, run to quiescence -/
-def introduce (c : Cfg) (w : World) : World :=
-  if c.newStyle then w.ask 1 0 else w.walk 1 addrI
+def prehistory (c : Cfg) : World := prehistoryOn c 0 (setPref (world0 c) 0 [2])
+
+/-- R's request to I in overlay s: response + puncture request + puncture, run to quiescence -/
+def introduceIn (c : Cfg) (s : Nat) (w : World) : World :=
+  if c.newStyle then w.ask 1 0 s else w.walk 1 addrI s
+
+def introduce (c : Cfg) (w : World) : World := introduceIn c 0 w
 
 /-- the whole script: prehistory, introduction, R's next contact attempt -/
 def script (c : Cfg) : World := (introduce c (prehistory c)).walkAll 1
@@ -102,11 +112,11 @@ def newEvents (w : World) (f : World → World) : List Ev := (f w).trace.drop w.
 def introductionOkW (c : Cfg) (w0 : World) : Bool :=
   let evs := newEvents w0 (introduce c)
   evs.any (fun e => e.src == 0 && e.delivered 2 &&
-    (match e.msg with | .punctReq _ p => p.wan_walker_address == (hostR c).wan | _ => false)) &&
+    (match e.msg with | .punctReq _ _ p => p.wan_walker_address == (hostR c).wan | _ => false)) &&
   evs.any (fun e => e.src == 2 && e.isPuncture && (sameBox c || e.dst == (hostR c).wan)) &&
   evs.any (fun e => e.src == 0 && e.delivered 1 &&
     (match e.msg with
-     | .introResp _ _ p _ => p.wan_introduction_address == (hostP c).wan && p.lan_introduction_address == (hostP c).lan
+     | .introResp _ _ _ p _ => p.wan_introduction_address == (hostP c).wan && p.lan_introduction_address == (hostP c).lan
      | _ => false))
 
 /-- during R's next contact attempt: a request of R reached P and P's answer reached R -/
@@ -166,6 +176,23 @@ def scriptFrom (c : Cfg) (w0 : World) : World := (introduce c w0).walkAll 1
 /-- the conclusion of the script started from `w0` -/
 def allOkW (c : Cfg) (w0 : World) : Bool :=
   introductionOkW c w0 && contactOkW c w0 && mutualOk c (scriptFrom c w0) && (!sameBox c || lanOnlyW c w0)
+
+/-! ## two overlays on one Network -/
+
+/-- R and P first become peers of each other in overlay 1 (the whole script there); this is the state in which the
+    script then starts in overlay 0: P is already a verified peer of R network-wide and its addresses are already in
+    R's address table (discovered through overlay 1), but it is not a peer of overlay 0 yet. -/
+def prehistoryTwo (c : Cfg) : World :=
+  let w1 := (introduceIn c 1 (prehistoryOn c 1 (setPref (world0 c) 0 [2]))).walkAll 1 1
+  prehistoryOn c 0 w1
+
+/-- …and the state after the overlay-1 phase alone (for the claim that it connected them there) -/
+def afterOverlayOne (c : Cfg) : World :=
+  (introduceIn c 1 (prehistoryOn c 1 (setPref (world0 c) 0 [2]))).walkAll 1 1
+
+def mutualIn (c : Cfg) (w : World) (s : Nat) : Bool :=
+  (match w.verifiedAt 1 2 s with | some p => p.v4 == expectAddrOf c (hostP c) | none => false) &&
+  (match w.verifiedAt 2 1 s with | some p => p.v4 == expectAddrOf c (hostR c) | none => false)
 
 /-! ## more candidates at the introducer -/
 
